@@ -56,6 +56,8 @@ type jobJ struct {
 	// vc
 	Programs []string `json:"programs"`
 	Scratch  string   `json:"scratch"`
+	// batch: several hist jobs in one process; their keys are prefixed "<index>/"
+	Jobs []jobJ `json:"jobs,omitempty"`
 }
 
 type evJ struct {
@@ -68,6 +70,7 @@ type evJ struct {
 	Step  int      `json:"step,omitempty"`
 	Res   string   `json:"res,omitempty"`
 	Msg   string   `json:"msg,omitempty"`
+	Job   int      `json:"job,omitempty"`
 }
 
 var out = bufio.NewWriter(os.Stdout)
@@ -92,7 +95,13 @@ func childMain() {
 	var err error
 	switch job.Kind {
 	case "hist":
-		err = childHist(&job, skip)
+		err = childHist(&job, skip, "", 0)
+	case "batch":
+		for i := range job.Jobs {
+			if err = childHist(&job.Jobs[i], skip, fmt.Sprintf("%d/", i), i); err != nil {
+				break
+			}
+		}
 	case "vc":
 		err = childVC(&job, skip)
 	default:
@@ -106,6 +115,7 @@ func childMain() {
 }
 
 type histEnv struct {
+	prefix string
 	ctx  context.Context
 	lk   *lakeh.Lake
 	src  *data.Source
@@ -142,13 +152,13 @@ func (h *histEnv) ids(model []int) ([]ksuid.KSUID, bool) {
 	return out, true
 }
 
-func childHist(job *jobJ, skip map[string]bool) error {
+func childHist(job *jobJ, skip map[string]bool, prefix string, jobIdx int) error {
 	ctx := context.Background()
 	lk, err := lakeh.Create(ctx, lakeh.NewMemStore(), 0, nil)
 	if err != nil {
 		return err
 	}
-	h := &histEnv{ctx: ctx, lk: lk, src: data.NewSource(storage.NewRemoteEngine(), lk.Root), real: map[int]ksuid.KSUID{}, back: map[string]int{}}
+	h := &histEnv{prefix: prefix, ctx: ctx, lk: lk, src: data.NewSource(storage.NewRemoteEngine(), lk.Root), real: map[int]ksuid.KSUID{}, back: map[string]int{}}
 	if h.pool, err = lk.CreatePool(ctx, "p", "k", "asc", 0, 0); err != nil {
 		return err
 	}
@@ -207,9 +217,9 @@ func childHist(job *jobJ, skip map[string]bool) error {
 			}
 		}
 		if res == "ok" && len(fresh) != len(st.NewIds) {
-			emit(evJ{Ev: "op", Step: i + 1, Res: res, Msg: fmt.Sprintf("model predicts %d new objects, lake created %d (%v)", len(st.NewIds), len(fresh), opErr)})
+			emit(evJ{Ev: "op", Job: jobIdx, Step: i + 1, Res: res, Msg: fmt.Sprintf("model predicts %d new objects, lake created %d (%v)", len(st.NewIds), len(fresh), opErr)})
 		} else {
-			emit(evJ{Ev: "op", Step: i + 1, Res: res, Msg: fmt.Sprint(opErr)})
+			emit(evJ{Ev: "op", Job: jobIdx, Step: i + 1, Res: res, Msg: fmt.Sprint(opErr)})
 		}
 		if len(fresh) == 1 && len(st.NewIds) == 1 {
 			k, _ := ksuid.Parse(fresh[0])
@@ -254,6 +264,7 @@ func childHist(job *jobJ, skip map[string]bool) error {
 
 // run executes one query; sched != nil forces the legs' Lister pulls.
 func (h *histEnv) run(key, q string, par int, sched []int, skip map[string]bool) {
+	key = h.prefix + key
 	if skip[key] {
 		return
 	}
